@@ -644,6 +644,15 @@ def determinism_checks(ctx):
                     out.append(("toy-reset-rng-state", "after reset #%d + the same run the numpy generator is in another state "
                                 "than after the fresh run" % (k + 1), rp, False))
                     break
+            # (3b) reset WITHOUT handing the optimiser parameters over again: reset_recon itself has to rebuild
+            # optimisers / schedulers from the stored parameters
+            B.reconstruct(num_iters=2, **{**_kw(b, lt), "optimizer_params": None})
+            B.reconstruct(num_iters=iters, reset=True, **{**_kw(b, lt), "optimizer_params": None})
+            le, ve = _hist(B)
+            ctx.count(("reset-keep-optimizer-params", scan, b, vr, vm, lt), nontrivial=True)
+            if len(le) != iters or _rel(la, le) > TOL or len(ve) != len(va) or _rel(va, ve) > TOL:
+                out.append(("toy-reset-determinism", "reconstruct(reset=True) without new optimizer_params gives losses %s / validation "
+                            "%s, the fresh run from the same seed gave %s / %s" % (le, ve, la, va), rp, True))
             # (4) reconstruct(reset=True) with ANOTHER batch size == a fresh run with that batch size
             C = fresh()
             C.reconstruct(num_iters=iters, **_kw(b2, lt))
@@ -760,7 +769,10 @@ def reset_fields_check(ctx):
 
 
 def all_checks(ctx):
-    res = []
+    res, seen = [], {}
     for f in (rng_mixin_check, recon_schedule_check, loss_tie_check, determinism_checks, reset_fields_check):
-        res.extend(f(ctx))
+        for item in f(ctx):
+            seen[item[0]] = seen.get(item[0], 0) + 1
+            if seen[item[0]] <= 2:          # at most two reports per key: the rest repeat the same cause
+                res.append(item)
     return res
